@@ -2,7 +2,7 @@
    Only ExtrOcamlBasic is used: bool, option, unit, list, prod, sumbool map to
    OCaml's; positive/N/Z/nat stay the extracted inductive types. *)
 From Coq Require Extraction ExtrOcamlBasic.
-From PV Require Import Base.Common Model.LabelScope Model.Syntax Model.VarScope Proofs.VarScopeProofs Base.IR Model.Lower Model.Sem Model.Expand Model.Header Model.Containers Model.Layout Model.Literal Gen.Linkage Base.Tok Model.LexAlpha Model.LexDelta Model.Cli Model.RefParser Model.Resolve Model.Cfg.
+From PV Require Import Base.Common Model.LabelScope Model.Syntax Model.VarScope Proofs.VarScopeProofs Base.IR Model.Lower Model.Sem Model.Expand Model.Header Model.Containers Model.Layout Model.Literal Gen.Linkage Base.Tok Model.LexAlpha Model.LexDelta Model.Cli Model.RefParser Model.Resolve Model.Cfg Model.Mutability.
 
 Extraction Language OCaml.
 Separate Extraction
@@ -21,6 +21,10 @@ Separate Extraction
   RefParser.parse_module RefParser.print_module RefParser.show_module RefParser.wf_module RefParser.toks_ok RefParser.mk
   Resolve.resolve_expr Resolve.resolve_cmp Resolve.check_call
   Cfg.lower_body Cfg.cfg_view Cfg.cfg_wfb Cfg.accepted
+  Mutability.mut_program Mutability.mut_decl Mutability.mut_stmt Mutability.mut_expr
+  Mutability.check_assignment Mutability.check_address_taken Mutability.use_variable Mutability.uv_codes
+  Mutability.fc_body Mutability.fc_stmt Mutability.fc_expr Mutability.fc_decl_type
+  Mutability.use_function
   Containers.run Sem.run_main Expand.expand_sorted Header.build_header Header.header_spec Header.zones_wfb Header.refs_localb
   VarScope.an_program VarScope.spec_program VarScopeProofs.once VarScopeProofs.events
   Syntax.body_codes Syntax.spec_body Syntax.lint_body Syntax.lint_spec_body.
